@@ -1936,8 +1936,10 @@ func (cs *CachingScheduleTracker) GenerateCachingSchedule(maxMemory int) [][]uin
 
 	cachingSch := make([][]uint64, len(cs.numAdds))
 
-	cache := make([]ttlInfo, 0, maxMemory)
-	createHeights := make(map[uint64]int, maxMemory)
+	// maxMemory is only a limit. It can be much bigger than what will ever
+	// be cached so it's not used as the size to allocate.
+	cache := make([]ttlInfo, 0)
+	createHeights := make(map[uint64]int)
 	for i, ttls := range cs.ttls {
 
 		// Check the cache for spent positions.
